@@ -103,7 +103,7 @@ func histories(r *Run) {
 	}
 	for s := 0; s < steps; s++ {
 		t.Begin("step")
-		op := t.Pick([]int{5, 2, 2, 2, 2, 4, 2}, "op")
+		op := t.Pick([]int{5, 2, 2, 2, 2, 4, 2, 1}, "op")
 		name := ""
 		switch op {
 		case 0:
@@ -136,6 +136,18 @@ func histories(r *Run) {
 					recoveryRestoredAfterFail = true
 				}
 			}
+		case 7:
+			// an outdated or wrongly produced recovery file of the same
+			// set turns up beside the index (valid by the format's checks)
+			name = "stale-recovery-arrives"
+			if w.Par1 {
+				w.hostilePar1Kind(r, "forged-volume")
+			} else if t.Bool(1, 2, "forged") {
+				w.hostileRecoveryKind(r, "forged-recovery-block")
+			} else {
+				w.hostileRecoveryKind(r, "stale-same-setid")
+			}
+			r.Probe("stale-recovery-arrives")
 		case 4:
 			name = "verify"
 			before := w.Disk.Snapshot()
@@ -264,7 +276,18 @@ func c14Repair(r *Run, w *World, dc bool, lastRepairOK, failedSeen, recRestored,
 	}
 	r.noPanic(rep2)
 	r.Probe("second-repair-checked")
-	if rep2.Err != nil {
+	// the statement binds "rewrites nothing"; that the second Repair
+	// also succeeds follows from C01/C04 only while every recovery file
+	// present is genuine (a format-valid but wrong recovery file may
+	// legitimately make the double-check fail)
+	genuine := false
+	if w.Par1 {
+		genuine = len(w.TruthPar1().DamagedVolumes) == 0
+	} else {
+		tr := w.TruthPar2()
+		genuine = tr.RecoveryAllSnapshots && !tr.RecoveryDamaged
+	}
+	if rep2.Err != nil && genuine {
 		r.Violate("second-repair-wrote", "a second Repair right after a successful one fails: %v", rep2.Err)
 	}
 	if n := len(rep2.Writes()); n > 0 || len(rep2.Repaired) > 0 {
